@@ -461,6 +461,19 @@ def c11_scenario(rep, binary, workdir, rng, frame_maker, attempt=0):
             ac_filter = [a for a in ac_filter if a != drop[2]]
             if keep[2] not in ac_filter:
                 ac_filter.append(keep[2])
+    # markers: frames that pass the filters of this scenario, sent after everything else; one of them coming out proves
+    # that the windows of all earlier receptions had closed (one feed: arrival and closing are first in, first out)
+    markers = []
+    for _ in range(3):
+        try:
+            mdf = rng.choice(df_filter) if df_filter else rng.choice(dfs)
+            h, addr, decoys = frame_maker(rng, mdf, rng.choice(ac_filter) if ac_filter else rng.randrange(1, 1 << 24))
+            markers.append(bytes.fromhex(h))
+        except TypeError:
+            break
+    if markers:
+        mv = drive(binary, "filter", [{"frame": m.hex()} for m in markers])
+        markers = [m for m, v in zip(markers, mv) if v.get("decoded") and not any(m == f[1] for f in frames)]
     out_file = os.path.join(workdir, f"c11sys.{os.getpid()}.jsonl")
     if os.path.exists(out_file):
         os.unlink(out_file)
@@ -508,6 +521,20 @@ def c11_scenario(rep, binary, workdir, rng, frame_maker, attempt=0):
             order.remove(tw[1])
             order.insert(order.index(f[1]) + rng.randrange(2), tw[1])
         run.send(0, order)
+        # the same frame bytes heard again a little more than one window later (squitters and status messages repeat
+        # bit for bit about once a second): every copy that opens a window of its own is a record of its own and the
+        # filters decide each one the same way. Two batches, so that a copy of the second batch coming out proves that
+        # the windows of the first batch had closed.
+        repeats = rng.sample(order, min(10, len(order)))
+        half = len(repeats) // 2
+        time.sleep(0.15)
+        run.send(0, repeats[:half])
+        time.sleep(0.15)
+        run.send(0, repeats[half:])
+        rep.cls("system:repeated-frames-sent", len(repeats))
+        if markers:
+            time.sleep(0.3)
+            run.send(0, markers)
         tr = trailers(4)
         for t in tr:
             time.sleep(0.6)
@@ -550,6 +577,7 @@ def c11_scenario(rep, binary, workdir, rng, frame_maker, attempt=0):
     want_df = None if not df_filter else set(str(d) for d in df_filter)
     want_ac = None if not ac_filter else set("%06x" % a for a in ac_filter)
     shown = {}
+    receptions = {}
     for l in lines:
         try:
             o = strict_loads(l)
@@ -557,6 +585,7 @@ def c11_scenario(rep, binary, workdir, rng, frame_maker, attempt=0):
             rep.violation("C11:system:malformed-record", f"stdout line is not strict JSON: {e}: {l[:200]}", replay)
             continue
         shown[o.get("frame")] = o
+        receptions[o.get("frame")] = receptions.get(o.get("frame"), 0) + max(1, len(o.get("metadata") or []))
         ok = (want_df is None or o.get("df") in want_df) and (want_ac is None or o.get("icao24") in want_ac)
         if not ok:
             rep.violation(f"C11:system:wrongly-kept:DF{o.get('df')}", f"jet1090 {' '.join(args[4:])} printed a record with df={o.get('df')} icao24={o.get('icao24')}: {l[:160]}", replay)
@@ -599,6 +628,25 @@ def c11_scenario(rep, binary, workdir, rng, frame_maker, attempt=0):
             if sent_at[fr.hex()] < last_shown or trailer_shown:
                 rep.violation(f"C11:system:wrongly-dropped:DF{df}",
                               f"jet1090 {' '.join(args[4:])} never printed {fr.hex()} (DF{df}, address {addr:06x}) although frames sent after it came out", replay)
+    # repeated frames: all receptions of a kept frame come out (in one record when the copies shared a window, else in
+    # two). The copies of the first batch are due once a copy of the second batch, or a trailer, has come out.
+    by_frame = {f[1].hex(): f for f in frames}
+    second_out = any(receptions.get(h.hex(), 0) >= 2 for h in repeats[half:]) or trailer_shown or any(m.hex() in shown for m in markers)
+    if any(m.hex() in shown for m in markers):
+        rep.cls("system:marker-came-out")
+    for h in repeats[:half]:
+        df, fr, addr, _ = by_frame[h.hex()]
+        if (want_df is None or str(df) in want_df) and (want_ac is None or "%06x" % addr in want_ac):
+            got = receptions.get(h.hex(), 0)
+            if got >= 2:
+                rep.cls("system:repeated-frame-kept-both-times")
+            elif got == 1 and second_out:
+                rep.violation(f"C11:system:wrongly-dropped:repeat:DF{df}",
+                              f"jet1090 {' '.join(args[4:])}: {h.hex()} (DF{df}, address {addr:06x}) was sent twice, more than one window apart; one reception came out "
+                              f"although receptions sent after the second copy came out", replay)
+                missing.append((df, h.hex(), "%06x" % addr))
+            elif got == 1:
+                missing.append((df, h.hex(), "%06x" % addr))
     rep.cls("system:filter:df=" + ("absent" if df_filter is None else "set") + ":ac=" + ("absent" if ac_filter is None else "set"))
     if missing:
         if attempt == 0:
